@@ -42,9 +42,19 @@ C05Clauses(r, res) ==
               THEN {} ELSE {"c05:union"})
              \cup (IF \A j \in DOMAIN r.errs : AttrOfPath(r.errs[j].sp) \in Active(r.d, r.S) THEN {} ELSE {"c05:stray"}))
 
+\* every error of the forest (the yielded errors and, recursively, their contexts)
+RECURSIVE Forest(_)
+Forest(es) == UNION { {es[j]} \cup Forest(es[j].ctx) : j \in DOMAIN es }
+\* two observations of one located error
+SameLocated(a, b) == /\ a.none = b.none /\ a.kw = b.kw /\ a.ip = b.ip /\ a.sp = b.sp /\ a.msg = b.msg
+                     /\ a.aip = b.aip /\ a.asp = b.asp /\ a.jp = b.jp /\ a.inst = b.inst /\ a.kwval = b.kwval
 C06Clauses(r) ==
   IF ~r.loc THEN {}
   ELSE { "c06:" \o c : c \in AllLocClauses(r.d, EnvOf(r, r.S), r.S, r.I, r.errs, <<>>, <<>>) }
+       \* r.bm: what best_match returned when fed the lazy iterator (the error jsonschema.validate() raises): a
+       \* context-free error of the forest, locating itself exactly as that error does when found by walking the list
+       \cup (IF \A k \in DOMAIN r.bm : r.bm[k].ctx = <<>> /\ \E e \in Forest(r.errs) : SameLocated(e, r.bm[k])
+             THEN {} ELSE {"c06:best_match_location"})
 
 \* S2 is S with members inserted whose names the draft does not define (at any depth); compared structurally:
 \* objects may gain members named in Foreign; everything else equal
